@@ -592,11 +592,11 @@ def r4(ctx):
     ctx.ok("C18.R4", f"no run-time mutation of the {len(singles)} module-level singletons ({n} found)", "formulaic/")
     # parse contexts: the default parsers never receive caller mappings to write into
     fp = P.func("formulaic.parser.types.formula_parser.FormulaParser.parse")
-    ok = "context = LayeredMapping(context or {}, self.context)" in norm(fp.node)
+    ok = _private_layer_dominates(P, fp, "context", "LayeredMapping(context or {}, self.context)", ("get_tokens_from_formula", "get_ast_from_tokens", "get_terms_from_ast"))
     ctx.check(ok, "C18.R4", "parsing writes context keys into a private layer, not into the caller's or the parser's mapping", fp.where,
               ctx.construct(fp, text="private context"), "expected `context = LayeredMapping(context or {}, self.context)`")
     se = P.func("formulaic.utils.stateful_transforms.stateful_eval")
-    ok = "env = LayeredMapping(env)" in norm(se.node)
+    ok = _private_layer_dominates(P, se, "env", "LayeredMapping(env)", ("sanitize_variable_names", "eval", "get_expression_variables", "_is_stateful_transform"))
     ctx.check(ok, "C18.R4", "factor evaluation edits the environment through a private layer", se.where, ctx.construct(se, text="private env"),
               "expected `env = LayeredMapping(env)` before sanitising names")
     # mutable `_state` defaults
@@ -621,6 +621,26 @@ def r4(ctx):
     ok = "_state = {} if _state is None else _state" in norm(w.node)
     ctx.check(ok, "C18.R4", "the stateful wrapper supplies a fresh state dict when none is given", w.where, ctx.construct(w, text="fresh state"),
               "expected `_state = {} if _state is None else _state`")
+
+
+def _private_layer_dominates(P: Project, f: FunctionInfo, name: str, value_text: str, users) -> bool:
+    """`name = <value_text>` is executed on EVERY path before any of the calls in ``users`` that receive ``name``."""
+    cfg = CFG(f.node)
+    wraps = [st for st in cfg.stmts() if isinstance(st, (ast.Assign, ast.AnnAssign)) and norm(st.targets[0] if isinstance(st, ast.Assign) else st.target) == name
+             and norm(st.value) == value_text]
+    if len(wraps) != 1:
+        return False
+    w = wraps[0]
+    for st in cfg.stmts():
+        if st is w:
+            continue
+        for c in header_calls(st):
+            nm = (dotted(c.func) or "").split(".")[-1]
+            if nm in users and any(isinstance(x, ast.Name) and x.id == name for a in list(c.args) + [k.value for k in c.keywords] for x in ast.walk(a)):
+                if not cfg.dominates(w, st):
+                    return False
+    # and the wrap is not skipped on some path (it must dominate the function's normal exits)
+    return all(cfg.dominates(w, st) for st in cfg.stmts() if isinstance(st, ast.Return))
 
 
 def _wrapped_by_assignment(P: Project, f: FunctionInfo) -> bool:
